@@ -550,7 +550,7 @@ impl DomSim {
 
     fn gen_history(&self, r: &mut Rng, property: &str, thorough: bool) -> DomTrace {
         let n_doms = r.range(1, 3) as usize;
-        let uid_mode = property == "C12" || (property != "C10" && r.chance(1, 4));
+        let uid_mode = property == "C12" || r.chance(1, 4);
         let n_ops = if thorough { r.range(3, 40) } else { r.range(3, 24) } as usize;
         let mut model = Model::new(n_doms);
         let mut ops = Vec::new();
@@ -1440,8 +1440,9 @@ impl DomSim {
                         match (was, now) {
                             (None, None) => {}
                             (None, Some(_)) | (Some(_), None) => {
-                                if prop == "C12" {
-                                    ctx.violate(uid_key("property-appeared-or-vanished", &op.kind, &org), format!("{}: UniqueId was {:?}, is now {:?}", world.model.nodes[id].name, was, now));
+                                if prop == "C12" || prop == "C10" {
+                                    let key = if prop == "C10" { format!("effect|unique-id-property-appeared-or-vanished|after={}", kind_name(&op.kind)) } else { uid_key("property-appeared-or-vanished", &op.kind, &org) };
+                                    ctx.violate(key, format!("{}: UniqueId was {:?}, is now {:?}", world.model.nodes[id].name, was, now));
                                     return;
                                 }
                             }
@@ -1465,7 +1466,7 @@ impl DomSim {
                             }
                         }
                     }
-                    if prop == "C12" {
+                    if prop == "C12" || prop == "C10" {
                         let org = origin_of(*dd);
                         let mut carried_vals: BTreeMap<(u32, u32, i64), usize> = BTreeMap::new();
                         for v in carried.values().flatten() {
@@ -1475,6 +1476,14 @@ impl DomSim {
                             let k = kept.get(&v).copied().unwrap_or(0);
                             if !present.contains(&v) && k != 1 {
                                 let what = if k == 0 { "replaced-without-collision" } else { "duplicate-kept-among-entering" };
+                                if prop == "C10" {
+                                    if k == 0 {
+                                        // "keeps its ... properties": a UniqueId may only change on a collision
+                                        ctx.violate(format!("effect|unique-id-replaced-without-collision|after={}", kind_name(&op.kind)), format!("{} instance(s) entered dom {} carrying UniqueId {:?}, no instance there held it, yet none of them kept it", holders, dd, v));
+                                        return;
+                                    }
+                                    continue;
+                                }
                                 ctx.violate(uid_key(what, &op.kind, &org), format!("{} instance(s) entered dom {} carrying UniqueId {:?}, no instance there held it, and {} of them kept it (exactly one should)", holders, dd, v, k));
                                 return;
                             }
@@ -1487,8 +1496,8 @@ impl DomSim {
                         }
                     }
                 }
-                if prop == "C12" {
-                    // nobody else changed, and no duplicates anywhere
+                if prop == "C12" || prop == "C10" {
+                    // nobody else changed, and (C12) no duplicates anywhere
                     let entering_set: BTreeSet<NodeId> = eff.entering.as_ref().map(|e| e.1.iter().copied().collect()).unwrap_or_default();
                     let mut per_dom: BTreeMap<(usize, (u32, u32, i64)), NodeId> = BTreeMap::new();
                     for (id, m) in &world.model.nodes {
@@ -1496,10 +1505,14 @@ impl DomSim {
                         if !entering_set.contains(id) {
                             if let Some(b) = uid_before.get(id) {
                                 if *b != now {
-                                    ctx.violate(format!("uid|changed-without-entering-a-dom|after={}", kind_name(&op.kind)), format!("{} did not enter a DOM but its UniqueId went from {:?} to {:?}", m.name, b, now));
+                                    let key = if prop == "C10" { format!("effect|unique-id-of-untouched-instance-changed|after={}", kind_name(&op.kind)) } else { format!("uid|changed-without-entering-a-dom|after={}", kind_name(&op.kind)) };
+                                    ctx.violate(key, format!("{} did not enter a DOM but its UniqueId went from {:?} to {:?}", m.name, b, now));
                                     return;
                                 }
                             }
+                        }
+                        if prop != "C12" {
+                            continue;
                         }
                         if let Some(u) = now {
                             if let Some(prev) = per_dom.insert((m.dom, u), *id) {
